@@ -124,6 +124,45 @@ impl Monitor for Threads {
                 Item { cfg, ops, sig_seed: rng.next(), f32_: rng.bool() }
             })
             .collect();
+        // siblings: instances that differ from an existing one in a single filter-relevant parameter
+        // (cutoff, down-sampling ratio, FFT output rate) and are alive at the same time - the pattern
+        // that exposes state shared between instances under an incomplete key
+        let mut items = items;
+        if rng.chance(0.6) {
+            let n0 = items.len();
+            for k in 0..n0.min(4) {
+                let mut sib = items[k].clone();
+                let c = &mut sib.cfg;
+                match c.kind {
+                    Kind::SincIn | Kind::SincOut => {
+                        if c.ratio < 1.0 && rng.bool() {
+                            c.ratio *= 0.7;
+                        } else {
+                            c.f_cutoff *= 0.8;
+                        }
+                    }
+                    Kind::FastIn | Kind::FastOut => c.ratio *= 1.3,
+                    _ => {
+                        // same input block, different output rate (both coprime to a prime input rate)
+                        let p_in = *rng.pick(&[7usize, 11, 13, 31, 101, 127]);
+                        c.fs_in = p_in;
+                        items[k].cfg.fs_in = p_in;
+                        let a = rng.ui(1, 3 * p_in);
+                        let b = rng.ui(1, 3 * p_in);
+                        items[k].cfg.fs_out = if a % p_in == 0 { a + 1 } else { a };
+                        c.fs_out = if b % p_in == 0 { b + 1 } else { b };
+                        if c.fs_out == items[k].cfg.fs_out {
+                            c.fs_out += 1;
+                            if c.fs_out % p_in == 0 {
+                                c.fs_out += 1;
+                            }
+                        }
+                    }
+                }
+                sib.sig_seed = rng.next();
+                items.insert(k + 1 + (items.len() - n0), sib);
+            }
+        }
         let desc = J::obj().with("threads", J::u(n_threads)).with(
             "work_items",
             J::Arr(items.iter().map(|it| J::obj().with("sample", J::s(if it.f32_ { "f32" } else { "f64" })).with("cfg", it.cfg.json()).with("signal_seed", J::Int(it.sig_seed as i128)).with("ops", ops_json(&it.ops))).collect()),
